@@ -404,6 +404,10 @@ func checkC12B(cc any) *ev.Verdict {
 			}
 		}
 	}
+	if refusedZeroPadded(c.Case, r) {
+		v.Skipped = "a number written with leading zeros was refused as ill-formed (allowed)"
+		return v
+	}
 	allowed := append([]string{model.EMissingFunds}, c.Expect...)
 	for _, a := range allowed {
 		if r.ErrClass == a {
